@@ -2,6 +2,7 @@
 
 from __future__ import annotations
 
+import contextlib
 import hashlib
 import io
 import os
@@ -340,7 +341,7 @@ def judge_ingest(ctx, template, kind, how, seed_name, mut_name, data, limit, che
             outcome = "ok"
             try:
                 with sandbox.mem_limit(MEM_SLACK + 8 * len(data)):
-                    with Budget(limit):
+                    with Budget(limit) if limit != "none" else contextlib.nullcontext():
                         ingest(store, how, data)
             except BudgetExceeded:
                 ctx.fail(f"C04:ingest:{how.split(':')[0]}:call-budget-exceeded", f"{kind}/{how} on {seed_name}/{mut_name}: more than {limit} Python calls (undisturbed run x50 + 20000)", check, case)
@@ -726,7 +727,7 @@ def judge_reader(ctx, work, rname, files, target, reader, mname, mutated, limit,
         warnings.simplefilter("ignore")
         try:
             with sandbox.mem_limit(MEM_SLACK + 8 * len(mutated)):
-                with Budget(limit):
+                with Budget(limit) if limit != "none" else contextlib.nullcontext():
                     reader(d)
         except BudgetExceeded:
             ctx.fail(f"C04:reader:{rname}:call-budget-exceeded", f"{rname} on {mname}: more than {limit} Python calls", check, case)
@@ -872,6 +873,14 @@ def run(ctx):
     ctx.note("readers", readers)
     ctx.parallel(_part_reader, [(r, 3, k) for r in readers for k in range(3)])
     ctx.parallel(_part_cycle, [0])
+    # coverage-guided campaigns (E3): structure-aware pack descriptions through the ingestion oracle, and the on-disk
+    # readers with the trailing checksum recomputed by the target
+    from .. import fuzz
+    from ..fuzzt import c04 as ft
+
+    plan = [("pack_struct", ctx.scale(1200, 60000), ctx.scale(8, 16))]
+    plan += [("reader:" + r, ctx.scale(4000, 400000), ctx.scale(1, 2)) for r in ft.READERS]
+    fuzz.run_campaigns(ctx, "vf.fuzzt.c04", plan)
 
 
 def replay(ctx, check, case):
@@ -893,5 +902,9 @@ def replay(ctx, check, case):
         sandbox.isolated(ctx, fn, [("x",)], lambda c, cc, h: c.fail(f"C04:reader:{case['reader']}:process-died:{h}", f"replayed case killed the process ({h})", "reader", case))
     elif check == "cycle":
         _part_cycle(ctx, 0)
+    elif check.startswith("fuzz"):
+        from .. import fuzz
+
+        fuzz.replay(ctx, case, check)
     else:
         raise HarnessError(f"unknown check {check!r}")
